@@ -91,6 +91,10 @@ def configs(tier):
                 for full in (False, True):
                     if full and 'return_full_data' not in _sig(entry):
                         continue
+                    if entry in NODE_PURE and kind == 'sets' and g in ('P3', 'paw') and full and len(I0) + len(R0 or []) < n:
+                        # an explicit nodelist in another order than G.nodes(): per-node series follow the nodelist
+                        out.append(dict(entry=entry, graph=g, ic=kind, I0=I0, R0=R0, full=True, weighted=False, nodelist='rotated',
+                                        tags=[entry, g, kind, 'full', 'nodelist'] + (['R0'] if R0 else [])))
                     for weighted in ((False, True, 'unrelated-attribute') if entry in NODE + NODE_PURE and g == 'P3' else (False,)):
                         out.append(dict(entry=entry, graph=g, ic=kind, I0=I0, R0=R0, full=full, weighted=weighted,
                                         tags=[entry, g, kind, 'full' if full else 'plain'] + (['R0'] if R0 else []) + (['weighted'] if weighted else [])
@@ -315,6 +319,9 @@ def _run(h, cfg, eng, EoN, an, flow):
     if cfg['full']:
         kw['return_full_data'] = True
     f = getattr(EoN, entry)
+    if cfg.get('nodelist'):
+        nodes = nodes[1:] + nodes[:1]          # rotation: not the identity, for n = 3 not an automorphism of the path either
+        kw['nodelist'] = list(nodes)
     if entry in NODE_PURE:
         args = [G, tau, gamma, list(cfg['I0'])]
         if cfg['R0']:
@@ -398,6 +405,9 @@ def _run(h, cfg, eng, EoN, an, flow):
             elif nm in ('SkIl', 'SkSl', 'IkIl', 'XY', 'XX', 'S_si', 'I_si'):
                 a = np.asarray(val, dtype=object)
                 want = ref[nm]
+                if nm in ('XY', 'XX') and cfg.get('nodelist'):
+                    g_order = list(G.nodes())
+                    want = [[want[g_order.index(u)][g_order.index(v)] for v in nodes] for u in nodes]
                 if entry.startswith('SIS') and nm == 'I_si' and cfg['ic'] != 'rho':
                     # SIS has no recovered class: every non-susceptible neighbour is infected (same thing here, kept explicit)
                     pass
@@ -556,6 +566,9 @@ def replay_concrete(cfg, kind, values, decisions):
         kw.update(transmission_weight='tw', recovery_weight='rw')
     if cfg['full']:
         kw['return_full_data'] = True
+    if cfg.get('nodelist'):
+        nl = list(G.nodes())
+        kw['nodelist'] = nl[1:] + nl[:1]
     f = getattr(EoN, entry)
     args = [G, tau, gamma] + ([list(cfg['I0'])] if entry in NODE_PURE else [])
     if entry in NODE_PURE and cfg['R0']:
@@ -613,7 +626,7 @@ def replay_concrete(cfg, kind, values, decisions):
             if nm in ('Sk', 'Ik', 'Rk') and (a.ndim != 2 or a.shape[0] != len(ref[nm]) or np.max(np.abs(a[:, 0] - np.array([float(x) for x in ref[nm]]))) > tol):
                 det[nm] = 'mismatch'
             if nm in ('Ss', 'Is', 'Rs'):
-                want = np.array([float(ref[nm][v]) for v in G.nodes()])
+                want = np.array([float(ref[nm][v]) for v in kw.get('nodelist', list(G.nodes()))])
                 if a.ndim != 2 or a.shape[0] != len(want) or np.max(np.abs(a[:, 0] - want)) > tol:
                     det[nm] = 'mismatch'
             if nm in ('SkK', 'IkK', 'RkK'):
@@ -623,6 +636,10 @@ def replay_concrete(cfg, kind, values, decisions):
                     det[nm] = 'mismatch'
             if nm in ('SkIl', 'SkSl', 'IkIl', 'XY', 'XX', 'S_si', 'I_si'):
                 want = np.array([[float(x) for x in row] for row in ref[nm]])
+                if nm in ('XY', 'XX') and kw.get('nodelist'):
+                    g_order = list(G.nodes())
+                    ix = [g_order.index(u) for u in kw['nodelist']]
+                    want = want[np.ix_(ix, ix)]
                 if a.ndim != 3 or a.shape[:2] != want.shape or np.max(np.abs(a[:, :, 0] - want)) > tol:
                     det[nm] = {'got': a[:, :, 0].tolist() if a.ndim == 3 else 'shape %s' % (a.shape,), 'want': want.tolist()}
         if 'thetak' in names:
